@@ -1,29 +1,183 @@
 import AL.Model.Sema
 import AL.Spec.Looser
 import AL.Gen.Builtins
+import AL.Lemmas.TyLooser
+import AL.Lemmas.TyMono
+import AL.Lemmas.TyWf
+import AL.Lemmas.TyMerge
+import AL.Lemmas.SemaMonoCompare
+import AL.Lemmas.SemaMonoBasic
+import AL.Lemmas.SemaMonoOps
+import AL.Lemmas.SemaMono
+import AL.Lemmas.SemaMonoJson
 /-
   C06 — unknown (any) types never cause a diagnostic.
   Statements; proved theorems are added below by name.
+
+  Summary of what is proved here.
+  * (a), (b), (d), (f), (g) hold as stated.
+  * (c) and (e) are FALSE as stated (`merge_mono_counterexample`, `mono_counterexample`): loosening the
+    element type of a plain array to `any` (`array<number>` ↦ `array<any>`) changes which side
+    `ArrayType.Merge` returns, and with it the `deref` flag that `checkObjectDeref` looks at.  The
+    checker (Go code and model alike) then reports `(matrix.a && github.event.*).foo` only in the
+    LOOSER environment.  This is a genuine violation of the property by the code.
+  * The corrected statements (c'), (e') use the relation `Ty.LooserD` (AL/Lemmas/TyLooser.lean): like
+    `Looser`, but a plain array whose element type is `any` on the loose side must have had element
+    type `any` before (and the `deref` flag may be switched on).  They also need the representation
+    invariant of the model, `Ty.wf`/`WfEnv` (property lists sorted by key; a Go map has no order and no
+    duplicate keys): `LooserProps` compares property lists position by position, while `merge` re-sorts.
 -/
 namespace AL.C06
 open AL AL.Sema AL.Spec
+
+/-! ### concrete data for the examples -/
+
+/-- `matrix : {cfg: {a: number}; os: string}`, built-in functions -/
+def exΓ : Env :=
+  { vars := [("matrix", .obj [("cfg", .obj [("a", .number)] none), ("os", .string)] none)],
+    funcs := AL.Gen.funcSigs, specialFuncs := AL.Gen.specialFuncs,
+    availCtx := ["matrix"], availSpecial := [], configVars := none,
+    lower := id, fromJson := fun _ => .otherErr }
+
+/-- the same with `matrix.cfg : any` -/
+def exΓ' : Env := { exΓ with vars := [("matrix", .obj [("cfg", .any), ("os", .string)] none)] }
+
+/-- `matrix.cfg.a == 1 && contains(matrix.os, 'x')` -/
+def exE : E :=
+  .logical .and (.cmp .eq (.objDeref (.objDeref (.var "matrix") "cfg") "a") .num)
+    (.call "contains" [.objDeref (.var "matrix") "os", .str "x"])
+
+theorem ex_looser : LooserEnv exΓ exΓ' :=
+  ⟨.cons (.obj (.cons (.toAny _) (.cons (.refl _) .nil)) .none) .nil, rfl, rfl, rfl, rfl, rfl, rfl, rfl⟩
+
+theorem ex_looserD : LooserEnvD exΓ exΓ' :=
+  ⟨.cons (.obj (.cons (.any _) (.cons .string .nil)) .none) .nil, rfl, rfl, rfl, rfl, rfl, rfl, rfl⟩
+
+/-! ### (a) -/
 
 /-- (a) `any` is assignable to and from everything that matters: a parameter accepts `any`, and `any`
 accepts every argument. -/
 def any_assignable_statement : Prop :=
   ∀ t : Ty, Ty.assignable t .any = true ∧ Ty.assignable .any t = true
 
+theorem any_assignable : any_assignable_statement :=
+  fun t => ⟨Ty.assignable_any_right t, Ty.assignable_any_left t⟩
+
+example : Ty.assignable (.obj [("a", .arr .string false)] none) .any = true ∧
+    Ty.assignable .any (.obj [("a", .arr .string false)] none) = true := any_assignable _
+
+/-! ### (b) -/
+
 /-- (b) assignability is monotone in the argument: loosening the argument keeps it assignable. -/
 def assignable_mono_right_statement : Prop :=
   ∀ p a a' : Ty, Looser a a' → Ty.assignable p a = true → Ty.assignable p a' = true
+
+theorem assignable_mono_right : assignable_mono_right_statement :=
+  fun _ _ _ h hp => Ty.assignable_mono_looser h hp
+
+/-- a strict object parameter `{a: string}` accepts `{a: number}`, hence also the opened `{a: any; …}` -/
+example : Looser (.obj [("a", .number)] none) (.obj [("a", .any)] (some .any)) ∧
+    Ty.assignable (.obj [("a", .string)] none) (.obj [("a", .number)] none) = true ∧
+    Ty.assignable (.obj [("a", .string)] none) (.obj [("a", .any)] (some .any)) = true :=
+  ⟨.obj (.cons (.toAny _) .nil) .opened, by simp [Ty.assignable, Ty.propsCover, Ty.lookupAssignable],
+   by simp [Ty.assignable, Ty.propsAssignableTo]⟩
+
+/-! ### (c) -/
 
 /-- (c) `Merge` is monotone: loosening either side yields a looser result. -/
 def merge_mono_statement : Prop :=
   ∀ l l' r r' : Ty, Looser l l' → Looser r r' → Looser (Ty.merge l r) (Ty.merge l' r')
 
+/-- (c) is false: `array<number>.Merge(array<any> with deref)` is the argument (deref flag on), but
+after loosening the receiver to `array<any>` the receiver wins (deref flag off). -/
+theorem merge_mono_counterexample : ¬ merge_mono_statement := by
+  intro h
+  have h1 := h (.arr .number false) (.arr .any false) (.arr .any true) (.arr .any true)
+    (.arr false (.toAny _)) (.refl _)
+  have e1 : Ty.merge (.arr .number false) (.arr .any true) = .arr .any true := rfl
+  have e2 : Ty.merge (.arr .any false) (.arr .any true) = .arr .any false := rfl
+  rw [e1, e2] at h1
+  cases h1
+
+/-- (c') corrected: for the deref-aware relation `LooserD`, and a well-formed (key-sorted) second
+argument. `LooserD` differs from `Looser` only on arrays: `arr e d ⊑ arr e' d'` needs `e ⊑ e'` and
+`d' = true ∨ (d = false ∧ (e' = any → e = any))`. -/
+def merge_mono_statement' : Prop :=
+  ∀ l l' r r' : Ty, Ty.wf r = true → Ty.LooserD l l' → Ty.LooserD r r' →
+    Ty.LooserD (Ty.merge l r) (Ty.merge l' r')
+
+theorem merge_mono' : merge_mono_statement' :=
+  fun l l' r r' hw hl hr => Ty.merge_mono r l l' r' hw hl hr
+
+/-- The well-formedness hypothesis of (c') cannot be dropped: `{}.Merge({b: number; a: number})`
+re-sorts the properties, while opening the argument takes the short-cut that returns it as it is. -/
+theorem merge_mono_needs_wf :
+    ¬ ∀ l l' r r' : Ty, Ty.LooserD l l' → Ty.LooserD r r' → Ty.LooserD (Ty.merge l r) (Ty.merge l' r') := by
+  intro h
+  have h1 := h (.obj [] none) (.obj [] none) (.obj [("b", .number), ("a", .number)] none)
+    (.obj [("b", .number), ("a", .number)] (some .any)) (Ty.LooserD.refl _)
+    (.obj (Ty.LooserDProps.refl _) .opened)
+  have e1 : Ty.merge (.obj [] none) (.obj [("b", .number), ("a", .number)] none)
+      = .obj [("a", .number), ("b", .number)] none := by ty_eval
+  have e2 : Ty.merge (.obj [] none) (.obj [("b", .number), ("a", .number)] (some .any))
+      = .obj [("b", .number), ("a", .number)] (some .any) := rfl
+  rw [e1, e2] at h1
+  cases h1 with
+  | obj hp _ => exact absurd hp.head_key (by decide)
+
+/-- (c') on concrete data: `{a: number}.Merge({a: string; b: bool})` against the same with the
+receiver's `a` loosened and the argument opened. -/
+example :
+    Ty.merge (.obj [("a", .number)] none) (.obj [("a", .string), ("b", .bool)] none)
+      = .obj [("a", .string), ("b", .bool)] none ∧
+    Ty.merge (.obj [("a", .any)] none) (.obj [("a", .string), ("b", .bool)] (some .any))
+      = .obj [("a", .any), ("b", .bool)] (some .any) ∧
+    Ty.LooserD (Ty.merge (.obj [("a", .number)] none) (.obj [("a", .string), ("b", .bool)] none))
+      (Ty.merge (.obj [("a", .any)] none) (.obj [("a", .string), ("b", .bool)] (some .any))) :=
+  ⟨by ty_eval, by ty_eval,
+   merge_mono' _ _ _ _ (by decide) (.obj (.cons (.any _) .nil) .none)
+     (.obj (Ty.LooserDProps.refl _) .opened)⟩
+
+/-! ### (d) -/
+
 /-- (d) comparison validity is monotone. -/
 def compare_mono_statement : Prop :=
   ∀ op (l l' r r' : Ty), Looser l l' → Looser r r' → validCompare op l r = true → validCompare op l' r' = true
+
+theorem compare_mono : compare_mono_statement :=
+  fun _ _ _ _ _ hl hr h => validCompare_mono_looser hl hr h
+
+example : validCompare .less .number .string = true ∧ validCompare .less .any .string = true ∧
+    validCompare .eq (.arr .number false) (.arr .string false) = true ∧
+    validCompare .eq (.arr .any false) .any = true := by
+  simp [validCompare]
+
+/-! ### (f) -/
+
+/-- (f) the built-in function table satisfies the hypothesis of (e) (regenerated table). -/
+def builtin_same_ret_statement : Prop := SameRet AL.Gen.funcSigs
+
+theorem sameRet_iff (fs : List (String × List Sig)) :
+    SameRet fs ↔ ∀ p ∈ fs, ∀ s₁ ∈ p.2, ∀ s₂ ∈ p.2, s₁.ret = s₂.ret :=
+  ⟨fun h p hp => h p.1 p.2 hp, fun h n sigs hm => h (n, sigs) hm⟩
+
+/-- re-checked against the generated table on every build, whatever its length -/
+theorem builtin_same_ret : builtin_same_ret_statement := by
+  unfold builtin_same_ret_statement
+  rw [sameRet_iff]
+  simp [AL.Gen.funcSigs]
+
+/-- the built-in table also has well-formed result types (hypothesis `WfEnv.funcs` of (e')) -/
+theorem builtin_rets_wf : ∀ n sigs, (n, sigs) ∈ AL.Gen.funcSigs → ∀ s ∈ sigs, Ty.wf s.ret = true := by
+  have h : ∀ p ∈ AL.Gen.funcSigs, ∀ s ∈ p.2, Ty.wf s.ret = true := by
+    simp [AL.Gen.funcSigs, Ty.wf]
+  exact fun n sigs hm => h (n, sigs) hm
+
+/-- the built-in context types are well formed (sorted by key), so `WfEnv.vars` holds for them -/
+theorem builtin_vars_wf : Ty.wfProps AL.Gen.globalVars = true ∧ Ty.sortedKeys AL.Gen.globalVars = true := by
+  decide
+
+/-! ### (e) -/
 
 /-- (e) THE PROPERTY: for every expression and every pair of environments Γ ⊑ Γ', if the expression is
 accepted under Γ it is accepted under Γ', and its type only gets looser. -/
@@ -31,12 +185,142 @@ def mono_statement : Prop :=
   ∀ (Γ Γ' : Env) (e : E), LooserEnv Γ Γ' → SameRet Γ.funcs →
     (check Γ e).errs = [] → (check Γ' e).errs = [] ∧ Looser (check Γ e).ty (check Γ' e).ty
 
-/-- (f) the built-in function table satisfies the hypothesis of (e) (regenerated table). -/
-def builtin_same_ret_statement : Prop := SameRet AL.Gen.funcSigs
+/-- counterexample to (e): `matrix.a : array<number>`, `github.event : object` -/
+def cexΓ : Env :=
+  { vars := [("github", .obj [("event", .obj [] (some .any))] none),
+             ("matrix", .obj [("a", .arr .number false)] none)],
+    funcs := AL.Gen.funcSigs, specialFuncs := AL.Gen.specialFuncs,
+    availCtx := ["github", "matrix"], availSpecial := [], configVars := none,
+    lower := id, fromJson := fun _ => .otherErr }
+
+/-- … loosened to `matrix.a : array<any>` -/
+def cexΓ' : Env :=
+  { cexΓ with vars := [("github", .obj [("event", .obj [] (some .any))] none),
+                        ("matrix", .obj [("a", .arr .any false)] none)] }
+
+/-- `(matrix.a && github.event.*).foo` -/
+def cexE : E :=
+  .objDeref (.logical .and (.objDeref (.var "matrix") "a") (.arrDeref (.objDeref (.var "github") "event"))) "foo"
+
+theorem cex_looser : LooserEnv cexΓ cexΓ' :=
+  ⟨.cons (.refl _) (.cons (.obj (.cons (.arr false (.toAny _)) .nil) .none) .nil),
+   rfl, rfl, rfl, rfl, rfl, rfl, rfl⟩
+
+/-- accepted with the precise type: the merge of `array<number>` and the dereferenced `array<any>` is
+the latter, `.foo` filters it -/
+theorem cex_accepted : (check cexΓ cexE).errs = [] ∧ (check cexΓ cexE).ty = .arr .any true := by
+  check_eval [cexΓ, cexE]
+
+/-- rejected with the looser type: the merge is now the receiver `array<any>`, not dereferenced -/
+theorem cex_rejected :
+    (check cexΓ' cexE).errs = [err "deref-not-object" ["foo", tyStr (.arr .any false)]] := by
+  check_eval [cexΓ, cexΓ', cexE]
+
+/-- (e) is false: THE CHECKER VIOLATES THE PROPERTY. With `matrix.a : array<number>` the expression
+`(matrix.a && github.event.*).foo` is accepted; with the less precise `matrix.a : array<any>` it gets
+"receiver of object dereference "foo" must be type of object but got "array<any>"". (Reproduced
+against the Go code: `ArrayType.Merge` returns the receiver when its element type is `any`, else the
+argument when the argument's element type is `any`; only the argument carries `Deref = true`.) -/
+theorem mono_counterexample : ¬ mono_statement := by
+  intro h
+  have h1 := (h cexΓ cexΓ' cexE cex_looser builtin_same_ret cex_accepted.1).1
+  rw [cex_rejected] at h1
+  cases h1
+
+/-- (e') corrected: the context types are related by the deref-aware `LooserD` (see (c')): everything
+`Looser` allows except replacing the element type of a plain array by `any` — `ArrSafe.toD` — and the
+environment is well formed (sorted property lists everywhere: context types, function results,
+types of JSON literals). -/
+def mono_statement' : Prop :=
+  ∀ (Γ Γ' : Env) (e : E), LooserEnvD Γ Γ' → WfEnv Γ → SameRet Γ.funcs →
+    (check Γ e).errs = [] → (check Γ' e).errs = [] ∧ Ty.LooserD (check Γ e).ty (check Γ' e).ty
+
+theorem mono' : mono_statement' :=
+  fun _ _ e h hw hs he => check_mono e h hw hs he
+
+/-- (e') in terms of the original `LooserEnv`: the property holds whenever, in addition, no plain array
+among the context types has its element type replaced by `any` (`ArrSafeProps`: a `Looser` derivation
+whose `arr` steps satisfy `d = true ∨ (e' = any → e = any)`). -/
+def mono_arrSafe_statement : Prop :=
+  ∀ (Γ Γ' : Env) (e : E), LooserEnv Γ Γ' → Ty.ArrSafeProps Γ.vars Γ'.vars → WfEnv Γ → SameRet Γ.funcs →
+    (check Γ e).errs = [] → (check Γ' e).errs = []
+
+theorem mono_arrSafe : mono_arrSafe_statement :=
+  fun _ _ e h hs hw hr he =>
+    (check_mono e ⟨hs.toD, h.funcs, h.specialFuncs, h.availCtx, h.availSpecial, h.configVars, h.lower,
+      h.fromJson⟩ hw hr he).1
+
+/-- `WfEnv` is no restriction in practice: every environment the differential-testing driver builds
+(built-in context types overridden by well-formed ones via `setProp`, the generated function table,
+the model of `typeOfJSONValue`) is well formed. -/
+theorem driver_env_wf (overrides : List (String × Ty)) (hov : ∀ e ∈ overrides, Ty.wf e.2 = true)
+    (ctx sp : List String) (cv : Option (List String)) (lower : String → String) :
+    WfEnv { vars := overrides.foldl (fun acc kv => Ty.setProp kv.1 kv.2 acc) AL.Gen.globalVars,
+            funcs := AL.Gen.funcSigs, specialFuncs := AL.Gen.specialFuncs, availCtx := ctx,
+            availSpecial := sp, configVars := cv, lower := lower, fromJson := AL.Json.fromJson lower } :=
+  ⟨foldl_setProp_pairs_wfProps overrides hov _ builtin_vars_wf.1, builtin_rets_wf, fromJson_wf lower⟩
+
+theorem ex_wf : WfEnv exΓ :=
+  ⟨by decide, builtin_rets_wf, fun _ _ h => by cases h⟩
+
+/-- (e') on concrete data: `matrix.cfg.a == 1 && contains(matrix.os, 'x')` with
+`matrix : {cfg: {a: number}; os: string}` and with `matrix.cfg : any`: the hypotheses hold, and the
+checker returns `bool` without diagnostics in both. -/
+example : LooserEnvD exΓ exΓ' ∧ WfEnv exΓ ∧ SameRet exΓ.funcs ∧
+    (check exΓ exE).errs = [] ∧ (check exΓ exE).ty = .bool ∧
+    (check exΓ' exE).errs = [] ∧ (check exΓ' exE).ty = .bool :=
+  ⟨ex_looserD, ex_wf, builtin_same_ret,
+   by check_eval [exΓ, exE, AL.Gen.funcSigs, AL.Gen.specialFuncs, AL.Gen.specialFuncKeys],
+   by check_eval [exΓ, exE, AL.Gen.funcSigs, AL.Gen.specialFuncs, AL.Gen.specialFuncKeys],
+   by check_eval [exΓ, exΓ', exE, AL.Gen.funcSigs, AL.Gen.specialFuncs, AL.Gen.specialFuncKeys],
+   by check_eval [exΓ, exΓ', exE, AL.Gen.funcSigs, AL.Gen.specialFuncs, AL.Gen.specialFuncKeys]⟩
+
+example : (check exΓ' exE).errs = [] := (mono' exΓ exΓ' exE ex_looserD ex_wf builtin_same_ret
+  (by check_eval [exΓ, exE, AL.Gen.funcSigs, AL.Gen.specialFuncs, AL.Gen.specialFuncKeys])).1
+
+/-- The well-formedness hypothesis of (e') cannot be dropped either (in the model; a Go map cannot
+have a duplicate key): with `y : {a: number; a: any}` the merge `{} && y` folds the two `a`s into `any`,
+while for the opened `y` the short-cut keeps `y`, whose first `a` is `number`. -/
+def wfΓ : Env :=
+  { vars := [("x", .obj [] none), ("y", .obj [("a", .number), ("a", .any)] none)],
+    funcs := [], specialFuncs := [], availCtx := ["x", "y"], availSpecial := [], configVars := none,
+    lower := id, fromJson := fun _ => .otherErr }
+def wfΓ' : Env :=
+  { wfΓ with vars := [("x", .obj [] none), ("y", .obj [("a", .number), ("a", .any)] (some .any))] }
+/-- `(x && y).a.foo` -/
+def wfE : E := .objDeref (.objDeref (.logical .and (.var "x") (.var "y")) "a") "foo"
+
+theorem mono_needs_wf :
+    ¬ ∀ (Γ Γ' : Env) (e : E), LooserEnvD Γ Γ' → SameRet Γ.funcs →
+      (check Γ e).errs = [] → (check Γ' e).errs = [] := by
+  intro h
+  have h1 := h wfΓ wfΓ' wfE
+    ⟨.cons (Ty.LooserD.refl _) (.cons (.obj (Ty.LooserDProps.refl _) .opened) .nil),
+     rfl, rfl, rfl, rfl, rfl, rfl, rfl⟩
+    (fun _ _ hm => by cases hm)
+    (by check_eval [wfΓ, wfE])
+  have h2 : (check wfΓ' wfE).errs = [err "deref-not-object" ["foo", tyStr .number]] := by
+    check_eval [wfΓ, wfΓ', wfE]
+  rw [h2] at h1
+  cases h1
+
+/-! ### (g) -/
 
 /-- (g) the untrusted-input events do not depend on the types at all (so loosening never changes
 script-injection reports either), as long as the expression is accepted under both. -/
 def events_independent_statement : Prop :=
   ∀ (Γ Γ' : Env) (e : E), LooserEnv Γ Γ' → (check Γ e).evs = (check Γ' e).evs
+
+theorem events_independent : events_independent_statement :=
+  fun _ _ e h => check_evs e h
+
+/-- the events of `matrix.cfg.a == 1 && contains(matrix.os, 'x')` -/
+example : (check exΓ exE).evs = (check exΓ' exE).evs ∧
+    (check exΓ exE).evs =
+      [.leave (.var "matrix"), .leave (.objDeref "cfg"), .leave (.objDeref "a"), .leave .other, .leave .other,
+       .enterSafeCall, .leave (.var "matrix"), .leave (.objDeref "os"), .leave .other, .leave .safeCall,
+       .leave .other] :=
+  ⟨events_independent exΓ exΓ' exE ex_looser,
+   by check_eval [exΓ, exE, AL.Gen.funcSigs, enterOf, leaveOf, isSafeCall]⟩
 
 end AL.C06
